@@ -137,6 +137,13 @@ func (c *Checked) Step(i int) {
 			c.HarmlessFail[i] = true
 		}
 	}
+	if op.Tag != "" && op.Kind == OpInvoke {
+		// reach of the workload templates (DESIGN §4.1)
+		c.probe("tmpl:" + op.Tag)
+		if res.Verdict == VOK {
+			c.probe("tmpl:" + op.Tag + ":ok")
+		}
+	}
 	c.curClosure = nil
 	if op.Kind == OpInvoke && c.modelOK() && !c.H.Cfg.DryRun {
 		c.curClosure = c.M.ClosureOf(Consumer{Scope: op.Scope, Fn: -1}, c.H.Funcs[op.Fn].LeafParams())
